@@ -29,6 +29,9 @@ BIND = "qlassfun.UnboundQlassf.bind"
 
 
 def run(ctx: Ctx):
+    from .. import memo as _memo
+
+    ctx.section(_memo.check_memo_keys, ctx, ('qlassfun.UnboundQlassf', 'qlassfun.QlassF.from_function', 'qlassfun.is_parameter', 'ast2ast.', 'types.parameter'))
     an = fx.effects(ctx)
     fi = ctx.repo.func(BIND)
     rep = fx.PurityReport(ctx, "FX-SELF")
